@@ -2561,25 +2561,27 @@ private:
    void _optimizeRational(volatile bool* interrupt = nullptr);
 
    /// checks result of the solving process and solves again without preprocessing if necessary
-   void _evaluateSolutionReal(typename SPxSimplifier<R>::Result simplificationStatus);
+   void _evaluateSolutionReal(typename SPxSimplifier<R>::Result simplificationStatus,
+                              volatile bool* interrupt = nullptr);
 
    /// solves real LP with/without preprocessing
    void _preprocessAndSolveReal(bool applyPreprocessing, volatile bool* interrupt = nullptr);
 
    /// loads original problem into solver and solves again after it has been solved to optimality with preprocessing
-   void _resolveWithoutPreprocessing(typename SPxSimplifier<R>::Result simplificationStatus);
+   void _resolveWithoutPreprocessing(typename SPxSimplifier<R>::Result simplificationStatus,
+                                     volatile bool* interrupt = nullptr);
 
    /// verify computed solution and resolve if necessary
-   void _verifySolutionReal();
+   void _verifySolutionReal(volatile bool* interrupt = nullptr);
 
    /// verify computed obj stop and resolve if necessary
-   void _verifyObjLimitReal();
+   void _verifyObjLimitReal(volatile bool* interrupt = nullptr);
 
    /// stores solution of the real LP; before calling this, the real LP must be loaded in the solver and solved (again)
-   void _storeSolutionReal(bool verify = true);
+   void _storeSolutionReal(bool verify = true, volatile bool* interrupt = nullptr);
 
    /// stores solution from the simplifier because problem vanished in presolving step
-   void _storeSolutionRealFromPresol();
+   void _storeSolutionRealFromPresol(volatile bool* interrupt = nullptr);
 
    /// unscales stored solution to remove internal or external scaling of LP
    void _unscaleSolutionReal(SPxLPBase<R>& LP, bool persistent = true);
